@@ -1596,6 +1596,10 @@ class t2data(object):
                     self._sections.append(keyword)
             else: more = False
         infile.close()
+        if self.extra_precision:
+            # (can only tell once the main file's sections are known)
+            self.echo_extra_precision = any([section in self._sections for
+                                             section in self.extra_precision])
         if meshfilename and (self.grid.num_blocks == 0):
             self.meshfilename = meshfilename
             if isinstance(meshfilename, str):
